@@ -2,6 +2,7 @@ import VaxisModel.Driver.Common
 import VaxisModel.Model.Conc
 import VaxisModel.Model.ConcSession
 import VaxisModel.Gen.Conc
+import VaxisModel.Model.ConcProtect
 
 /-! Driver for C10.  One op line per case:
 ```
@@ -240,6 +241,15 @@ def step (line : String) : String :=
     s!"close-*\tclose-*\t{verdict}"
   | "race" :: g =>
     let grp := g.headD "all"
+    -- group sigrender (kill signal while the main goroutine renders): the regenerated access facts say
+    -- whether the writer's buffer is written by both goroutines without a common mutex (Witness.F410);
+    -- if so a report is possible and the model does not predict `races=0`
+    if grp == "sigrender" && VaxisModel.Model.ConcProtect.racyPair Gen.Conc.funcRoles Gen.Conc.fieldAccesses "writer.buf" "main" "input" then
+      if impl.startsWith "races=0" then s!"races=0\traces=0\tok"
+      else if impl.startsWith "races=" then s!"races>0\traces>0\tFAIL data race reported by the race detector in group {grp}: {impl}"
+      else if impl.startsWith "race-unavailable" || impl.startsWith "race-skipped" then s!"{impl}\t{impl}\t-"
+      else s!"races>0\t{impl}\tFAIL race run failed: {impl}"
+    else
     if impl.startsWith "races=0" then s!"races=0\traces=0\tok"
     else if impl.startsWith "race-unavailable" || impl.startsWith "race-skipped" then s!"{impl}\t{impl}\t-"
     else if impl.startsWith "races=" then s!"races=0\t{(fi.headD "")}\tFAIL data race reported by the race detector in group {grp}: {impl}"
